@@ -493,7 +493,8 @@ pub fn replay<P: Property>(file: &Path) -> i32 {
     let out = std::env::temp_dir().join(format!("flv-replay-{}.json", std::process::id()));
     start_watchdog(P::case_timeout() * 2, out.clone());
     let mut code = 0;
-    for _ in 0..P::replay_repeats() {
+    let repeats = if std::env::var("FLV_REPLAY_ONCE").is_ok() { 1 } else { P::replay_repeats() };
+    for _ in 0..repeats {
         {
             let mut g = CURRENT.lock().unwrap_or_else(|p| p.into_inner());
             *g = Some((Instant::now(), "{}".into()));
@@ -560,11 +561,18 @@ pub struct ReplayVerdict {
 }
 
 pub fn replay_subprocess(id: &str, file: &Path, limit: Duration) -> ReplayVerdict {
+    replay_subprocess_opt(id, file, limit, false)
+}
+
+/// `once`: run the case a single time (hang verification), whatever the property's repeat count
+pub fn replay_subprocess_opt(id: &str, file: &Path, limit: Duration, once: bool) -> ReplayVerdict {
     let exe = std::env::current_exe().expect("current_exe");
-    let (code, out) = run_with_timeout(
-        std::process::Command::new(exe).arg("replay").arg(id).arg(file),
-        limit,
-    );
+    let mut cmd = std::process::Command::new(exe);
+    cmd.arg("replay").arg(id).arg(file);
+    if once {
+        cmd.env("FLV_REPLAY_ONCE", "1");
+    }
+    let (code, out) = run_with_timeout(&mut cmd, limit);
     let mut v = ReplayVerdict {
         failed: false,
         timed_out: code.is_none(),
@@ -744,8 +752,10 @@ pub fn check<P: Property>(tier: Tier, seed: u64) -> i32 {
                                 }))
                                 .unwrap(),
                             );
-                            let a = replay_subprocess(P::ID, &f, P::case_timeout());
-                            let b = if a.timed_out { replay_subprocess(P::ID, &f, P::case_timeout()) } else { ReplayVerdict { failed: false, timed_out: false, sig: String::new(), msg: String::new() } };
+                            // a single execution each, with twice the worker's limit: a case
+                            // that is merely slow on a loaded machine is no hang
+                            let a = replay_subprocess_opt(P::ID, &f, P::case_timeout() * 2, true);
+                            let b = if a.timed_out { replay_subprocess_opt(P::ID, &f, P::case_timeout() * 2, true) } else { ReplayVerdict { failed: false, timed_out: false, sig: String::new(), msg: String::new() } };
                             if a.timed_out && b.timed_out {
                                 if let Some(k) = kf::match_open(&findings, P::ID, "hang") {
                                     *known_hit.entry(k.id.clone()).or_insert(0) += 1;
